@@ -187,8 +187,7 @@ def condition(cls, facts, knobs):
         return 'empty-array'
     if facts.get('degenerate_box') and facts.get('total', 0) >= 1 and \
             0 < facts.get('hmax', 1.0) < 1e-3 and (
-                cls == 'LinkedListNNPS' or (
-                    cls == 'ExtendedZOrderNNPS' and knobs.get('H', 3) > 1)):
+                cls == 'LinkedListNNPS' or cls in ZFAM):
         # all particles at one point: the box is padded to unit size whatever
         # the cell size, so the number of cells is ~(1/(radius_scale*h))^dim
         return 'point-cloud,small-h'
